@@ -227,11 +227,18 @@ func c20History(c *Ctx, ops []string) {
 			if arg[0] == 'f' {
 				src, suffix = "func "+name+"(n) {n}", "("
 			}
+			forced := false
+			switch arg[0] { // round 12: `:=` always creates the binding, so it always records - also over an existing name of the other kind
+			case 'V':
+				src, suffix, forced = name+" := 1", " ", true
+			case 'F':
+				src, suffix, forced = name+" := (n) => n", "(", true
+			}
 			if _, err := eval.EvalString(st, src, false); err != nil {
 				c.Count("history-definition-rejected")
 				continue
 			}
-			if defined[name] {
+			if defined[name] && !forced {
 				// a re-definition goes through the update path, which records nothing; a word it MAY add is tolerated
 				opt[name+suffix] = true
 			} else {
@@ -426,6 +433,16 @@ func runC20(c *Ctx) {
 			}
 		}
 	}
+	for _, nm := range []string{"zq", "hist", "zedA"} {
+		for _, seq := range [][]string{{"V", "F"}, {"F", "V"}, {"v", "F"}, {"f", "V"}, {"V", "F", "V"}, {"v", "V", "F"}} {
+			var ops []string
+			for _, k := range seq {
+				ops = append(ops, "D"+k+nm, "T"+nm)
+			}
+			c20History(c, append(ops, "T", "T"+nm+"("))
+			c20History(c, append(append([]string{"I" + nm}, ops...), "T"+nm[:1]))
+		}
+	}
 	sn := 150
 	if c.Thorough() {
 		sn = 6000
@@ -440,7 +457,7 @@ func runC20(c *Ctx) {
 				ops = append(ops, "I"+w)
 			case 1:
 				id := strings.TrimRight(w, " (")
-				ops = append(ops, "D"+[]string{"v", "f"}[c.R.Intn(2)]+id+[]string{"", "Size", "2", "_x"}[c.R.Intn(4)])
+				ops = append(ops, "D"+[]string{"v", "f", "v", "f", "V", "F"}[c.R.Intn(6)]+id+[]string{"", "Size", "2", "_x"}[c.R.Intn(4)])
 			default:
 				ops = append(ops, "T"+w[:c.R.Intn(len(w)+1)])
 			}
